@@ -8,7 +8,7 @@ EXTENDS Naturals, Sequences, FiniteSets, FiniteSetsExt, TLC, Json
 CONSTANTS MaxCells, MaxPerCell,
           WithTwin        \* include the twin image p9 (switched off for the widest enumeration, which would not fit in memory)
 I(n, vol, imp, sums, size, uni, av, boot, disc) ==
-  [n |-> n, pathof |-> n, twinof |-> n, sumsof |-> n, volume_id |-> vol, implant_md5 |-> imp, checksums |-> sums, size |-> size, unified |-> uni,
+  [n |-> n, pathof |-> n, twinof |-> n, sumsof |-> n, identof |-> n, volume_id |-> vol, implant_md5 |-> imp, checksums |-> sums, size |-> size, unified |-> uni,
    additional_variants |-> av, bootable |-> boot, disc_number |-> disc, disc_count |-> IF disc = 0 THEN 0 ELSE 3]
 Pool0 == { I("p1", "set", "hex", "one", "small", FALSE, "none", TRUE, 1),
           I("p2", "null", "null", "two", "big", FALSE, "none", FALSE, 1),
@@ -22,17 +22,19 @@ Pool0 == { I("p1", "set", "hex", "one", "small", FALSE, "none", TRUE, 1),
           I("p8", "set", "null", "one", "small", FALSE, "one", TRUE, 1),
           \* a different file (own path, own checksum) with the identity of p1: a manifest holding both anywhere is one the
           \* library must refuse to build (C09); if it agrees to write it, C02 applies and the file must read back
-          [I("p9", "set", "hex", "one", "small", FALSE, "none", TRUE, 1) EXCEPT !.twinof = "p1"],
+          [I("p9", "set", "hex", "one", "small", FALSE, "none", TRUE, 1) EXCEPT !.twinof = "p1", !.identof = "p1"],
           \* the same file published under a second path: identity AND checksums of p1 - legal, and both records are kept
-          [I("p10", "set", "hex", "one", "small", FALSE, "none", TRUE, 1) EXCEPT !.twinof = "p1", !.sumsof = "p1"] }
-Pool == IF WithTwin THEN Pool0 ELSE {i \in Pool0 : i.n \notin {"p9", "p10"}}
+          [I("p10", "set", "hex", "one", "small", FALSE, "none", TRUE, 1) EXCEPT !.twinof = "p1", !.identof = "p1", !.sumsof = "p1"],
+          \* a unified image that differs from p3 ONLY in its additional variants (and path, checksums): another identity, legal next to p3
+          [I("p11", "set", "null", "one", "big", TRUE, "one", TRUE, 1) EXCEPT !.twinof = "p3"] }
+Pool == IF WithTwin THEN Pool0 ELSE {i \in Pool0 : i.n \notin {"p9", "p10", "p11"}}
 ValidImg(i) == i.unified \/ i.additional_variants = "none"
 Cells == {"V1", "V2", "V-3"} \X {"a1", "a2"}
 VARIABLE m           \* manifest: chosen cells -> non-empty set of pool images
 DistinctPaths(S) == \A i, j \in S : i.pathof = j.pathof => i = j
 Init == \E cs \in UNION {kSubset(k, Cells) : k \in 1..MaxCells} :
           /\ m \in [cs -> {S \in UNION {kSubset(k, Pool) : k \in 1..MaxPerCell} : DistinctPaths(S)}]
-          /\ Cardinality({c \in cs : \E i \in m[c] : i.n \in {"p7", "p8", "p9", "p10"}}) <= 1
+          /\ Cardinality({c \in cs : \E i \in m[c] : i.n \in {"p7", "p8", "p9", "p10", "p11"}}) <= 1
 Next == FALSE /\ UNCHANGED m
 Empty == [k \in {} |-> 0]
 ImgDoc(i) == ("path" :> "$path:" \o i.pathof) @@ ("mtime" :> "$mtime:" \o i.n) @@ ("size" :> "$size:" \o i.size)
@@ -47,7 +49,7 @@ ImagesDoc == [v \in Variants |-> [a \in ArchesOf(v) |-> [bypath |-> {ImgDoc(i) :
 Obj == {[v |-> c[1], a |-> c[2], imgs |-> {i.n : i \in m[c]}] : c \in DOMAIN m}
 PoolJson == [n \in {i.n : i \in Pool} |-> CHOOSE i \in Pool : i.n = n]
 Valid == /\ \A c \in DOMAIN m : \A i \in m[c] : ValidImg(i)
-         /\ \A c, d \in DOMAIN m : \A i \in m[c], j \in m[d] : (i.twinof = j.twinof /\ i.sumsof # j.sumsof) => i = j
+         /\ \A c, d \in DOMAIN m : \A i \in m[c], j \in m[d] : (i.identof = j.identof /\ i.sumsof # j.sumsof) => i = j
 Emit == PrintT("@@" \o ToJson([obj |-> Obj, images |-> ImagesDoc, pool |-> PoolJson, valid |-> Valid]))
 \* ---- model-level checks
 NothingLost == \A c \in DOMAIN m : Cardinality(ImagesDoc[c[1]][c[2]].bypath) = Cardinality(m[c])   \* distinct paths: one record per image
